@@ -4,15 +4,18 @@ pub mod c02;
 pub mod c03;
 pub mod c04;
 pub mod c05;
+pub mod c06;
 pub mod c07;
 pub mod c08;
 pub mod c10;
 pub mod c11;
 pub mod c12;
 pub mod c13;
+pub mod c14;
 pub mod c15;
 pub mod c16;
 pub mod c17;
+pub mod c18;
 pub mod c19;
 
 use crate::harness::Prop;
@@ -24,15 +27,18 @@ pub fn by_id(id: &str) -> Option<&'static dyn Prop> {
         "C03" => Some(&c03::C03),
         "C04" => Some(&c04::C04),
         "C05" => Some(&c05::C05),
+        "C06" => Some(&c06::C06),
         "C07" => Some(&c07::C07),
         "C08" => Some(&c08::C08),
         "C10" => Some(&c10::C10),
         "C11" => Some(&c11::C11),
         "C12" => Some(&c12::C12),
         "C13" => Some(&c13::C13),
+        "C14" => Some(&c14::C14),
         "C15" => Some(&c15::C15),
         "C16" => Some(&c16::C16),
         "C17" => Some(&c17::C17),
+        "C18" => Some(&c18::C18),
         "C19" => Some(&c19::C19),
         _ => None,
     }
